@@ -293,7 +293,10 @@ class AutonomousModeSelector:
                     watchdog.addEpoch("auto on_iteration")
 
                 for fn in iter_fn:
-                    fn()
+                    try:
+                        fn()
+                    except:
+                        on_exception()
 
                 if watchdog is not None:
                     watchdog.disable()
